@@ -21,7 +21,7 @@ PROP = dict(
               "history monitor",
     modules=["TinodeVerif.Props.C15"],
     theorems=[T + n for n in ["refused_invitation_no_trace", "invitation_starts_call", "stale_event_ignored", "accept_not_from_caller",
-                              "media_relay", "end_call_once", "closing_state", "new_call_after_end", "third_user_powerless"]],
+                              "media_relay", "end_call_once", "closing_state", "new_call_after_end", "third_user_powerless", "invitation_arms_timer", "only_accept_or_hangup_touch_timer", "timeout_ends_call"]],
     streams=[calls.calls_stream()],
     seeds=dict(quick=1, thorough=4),
     rule="random histories of 8-48 requests (200 cases quick, 1200 thorough per seed) on the p2p topic of two users with four of their "
